@@ -666,6 +666,23 @@ def register(R):
 
     from .c05 import resp_get
 
+    def checksum_member_clause(c, res, alg_in_use):
+        """C01: the part is listed with the part checksum S3 returned exactly when a checksum algorithm is in use and the
+        response carries that member; the value is the response's."""
+        ins = [e for e in c.trace if e.kind == 'read' and e.name == 'respdict.__contains__']
+        extra = [k for k in res if k not in ('ETag', 'PartNumber')]
+        if not ins:
+            return {'part_checksum_listed_iff_algorithm_in_use_and_returned_by_s3': (z3.Not(alg_in_use) if not extra else B(False), ['C01'])}
+        asked = ins[-1]
+        out = {'part_checksum_listed_iff_algorithm_in_use_and_returned_by_s3': (
+            B(len(extra) == 1) == z3.And(alg_in_use, asked.result), ['C01'])}
+        if len(extra) == 1:
+            v = res[extra[0]]
+            from .c05 import resp_get_u
+            want = resp_get_u(asked.recv.term, c.engine.as_u_term(asked.args[0], c.new.st))
+            out['listed_part_checksum_is_the_value_s3_returned'] = (B(isinstance(v, Opaque) and z3.eq(z3.simplify(v.term), z3.simplify(want))), ['C01'])
+        return out
+
     def part_checks(c):
         ev = exts(c.trace, 'client.upload_part')
         okk = len(ev) == 1 and ev[0].extra.get('raised') is None and \
@@ -683,6 +700,7 @@ def register(R):
             'returns_etag_of_the_response_and_the_part_number': (B(bool(etag_ok) and res.get('PartNumber') is c.a_part_number), ['C01']),
             'part_checksum_only_with_an_algorithm_in_use': (implies(B(len(extra_keys) > 0), has_alg), ['C01']),
             'at_most_one_checksum_member': (B(len(extra_keys) <= 1), ['C01']),
+            **checksum_member_clause(c, res, has_alg),
         }
 
     def _mapmeta(st, m):
@@ -1135,8 +1153,11 @@ def register(R):
     def got_inner_iteration(l0, l1, evs):
         g0, g1 = body_of_attempt(l0.st), body_of_attempt(l1.st)
         io = [e for e in evs if e.kind == 'call' and (e.name.endswith('queue_file_io_task') or e.name.endswith('get_io_write_task'))]
+        io_any = [e for e in evs if e.kind == 'call' and e.name.endswith(('queue_file_io_task', 'get_io_write_task', 'get_io_write_tasks'))]
         rd = [e for e in evs if e.kind == 'ext' and e.name == 'respdict.read']
-        out = {'one_network_read_per_chunk': (B(len(rd) == 1), ['C02'])}
+        out = {'one_network_read_per_chunk': (B(len(rd) == 1), ['C02']),
+               # a completed iteration is one whose chunk was accepted (the transfer was not done): it is handed to IO
+               'every_accepted_chunk_is_handed_to_io_exactly_once': (B(len(io_any) == 1), ['C02', 'C16'])}
         if len(io) == 1:
             env = io[0].extra['env']
             d = env['data']
@@ -1650,6 +1671,7 @@ def register(R):
             'part_checksum_only_with_an_algorithm_in_use': (implies(B(len(set(res) - {'ETag', 'PartNumber'}) > 0),
                                                                     b2z(c.engine.truthy(c.a_checksum_algorithm, c.new.st))), ['C01']),
             'each_progress_callback_gets_the_part_size_after_the_request_returned': (B(bool(okp)), ['C09']),
+            **checksum_member_clause(c, res, b2z(c.engine.truthy(c.a_checksum_algorithm, c.new.st))),
         }
 
     R.contract(f'{CP}:CopyPartTask._main', props=['C01', 'C05', 'C09', 'C10', 'C15'],
